@@ -71,6 +71,27 @@ def reduced_alphabet():
     return R
 
 
+def spelled_calls():
+    """the same bundled schemas named the other ways the library's local-path look-up supports: bare file name, backslash separators, a leading './', an
+    absolute path, a name below json/ without the json/ prefix"""
+    out = []
+    subs = []
+    dd = os.path.join(common.REPO, 'json', 'definitions')
+    if os.path.isdir(dd):
+        subs = ['definitions/' + f for f in sorted(os.listdir(dd)) if f.endswith('.json')][:2]
+    for s in ('athlete', 'event', 'race'):
+        for name in ('%s.json' % s, 'json\\%s.json' % s, './json/%s.json' % s, os.path.join(common.REPO, 'json', '%s.json' % s)):
+            out.append(('sv', name, 'Draft4Validator', False))
+            d = first_sample(s)
+            if d:
+                out.append(('va', d, name, False))
+                out.append(('va', d.replace('/', '\\'), name, False))
+    for name in subs:
+        out.append(('sv', name, 'Draft4Validator', False))
+        out.append(('sv', name.replace('/', '\\'), 'Draft7Validator', False))
+    return out
+
+
 def key_of(call):
     return (call[0], call[1], call[2])
 
@@ -188,6 +209,8 @@ def run(tier):
     X = cross_calls()
     R = reduced_alphabet()
     extra += [c for c in X + R if c not in A and c not in extra]
+    SP = spelled_calls()
+    extra += [c for c in SP if c not in A and c not in extra]
     # ---- reference outcomes from fresh processes
     fr = hist.fresh_outcomes(A + extra, [common.REPO, '/'])
     fresh = {}
@@ -251,6 +274,14 @@ def run(tier):
     if tier == 'quick':
         xp = [h for h in xp if not (h[0][3] or h[1][3])]
     go('ordered pairs with a mismatched document/schema call', work, [('pair', xp[i::64]) for i in range(64)])
+    # ---- the bundled schemas under their other spellings (bare name, backslashes, './', absolute): alone, all ordered pairs among them, and pairs with every
+    #      ordinary call on the same schema
+    go('schema names in other spellings alone', work, [('single', [[c] for c in SP[i::8]]) for i in range(8)])
+    base = lambda c: os.path.basename((c[1] if c[0] == 'sv' else c[2]).replace('\\', '/'))
+    spp = [[a, b] for a in SP for b in SP] + [[a, b] for a in SP for b in A if base(a) == base(b) and not b[3]] + [[b, a] for a in SP for b in A if base(a) == base(b) and not b[3]]
+    go('ordered pairs with a schema named in another spelling', work, [('pair', spp[i::64]) for i in range(64)])
+    spt = [[a, b, c] for a in SP[::3] for b in SP[1::3] for c in SP[2::3]]
+    go('triples over schema names in other spellings', work, [('triple', spt[i::32]) for i in range(32)])
     # ---- a change of working directory between two calls (every fresh outcome was shown above to be the same from both directories)
     cdp = [[a, ('cd', '/'), b] for a, b in pairs if not (a[3] or b[3])] + [[('cd', '/'), a, ('cd', common.REPO), b] for a, b in pairs if not (a[3] or b[3])]
     if tier == 'quick':
